@@ -138,6 +138,13 @@ func (interp *Interpreter) CompileAST(n ast.Node) (*Program, error) {
 
 // Execute executes compiled Go code.
 func (interp *Interpreter) Execute(p *Program) (res reflect.Value, err error) {
+	return interp.execute(p, interp.runid())
+}
+
+// execute executes compiled Go code as part of the run generation id, which is
+// the value of interp.runid() when the evaluation was requested. If the
+// evaluation has been cancelled since, nothing is executed.
+func (interp *Interpreter) execute(p *Program, id uint64) (res reflect.Value, err error) {
 	defer func() {
 		r := recover()
 		if r != nil {
@@ -147,13 +154,18 @@ func (interp *Interpreter) Execute(p *Program) (res reflect.Value, err error) {
 		}
 	}()
 
+	if id != interp.runid() {
+		// Cancelled before execution started.
+		return res, err
+	}
+
 	// Generate node exec closures.
 	if err = genRun(p.root); err != nil {
 		return res, err
 	}
 
 	// Init interpreter execution memory frame.
-	interp.frame.setrunid(interp.runid())
+	interp.frame.setrunid(id)
 	interp.frame.mutex.Lock()
 	interp.resizeFrame()
 	interp.frame.mutex.Unlock()
@@ -169,7 +181,7 @@ func (interp *Interpreter) Execute(p *Program) (res reflect.Value, err error) {
 	interp.run(n, nil)
 
 	for _, n := range p.init {
-		interp.run(n, interp.frame)
+		interp.runWithID(n, interp.frame, id)
 	}
 	v := genValue(p.root)
 	res = v(interp.frame)
@@ -191,10 +203,11 @@ func (interp *Interpreter) ExecuteWithContext(ctx context.Context, p *Program) (
 	interp.cancelChan = !interp.opt.fastChan
 	interp.mutex.Unlock()
 
+	id := interp.runid()
 	done := make(chan struct{})
 	go func() {
 		defer close(done)
-		res, err = interp.Execute(p)
+		res, err = interp.execute(p, id)
 	}()
 
 	select {
